@@ -67,12 +67,17 @@ static void prior_fill(rf_wavheader_t *h, int kind)
 	else if (kind == 1) memset(h, 0xA5, sizeof(*h));
 	else { memset(h, 0, sizeof(*h)); rf_wavheader_init(h, 48000, 2, RF_WAVHEADER_FLOAT); rf_wavheader_set_num_frames(h, 77); }
 }
+static uint32_t frames0_of(int prior, uint32_t frames) { return prior == 1 ? 0xffffffffu : (frames * 7u + 3u) % 5000u; }
 static void init_case(int prior, int f, unsigned ch, uint32_t rate, uint32_t frames)
 {
 	rf_wavheader_t *h = malloc(sizeof(*h)), *d = malloc(sizeof(*d));
 	uint8_t *buf = malloc(128);
 	prior_fill(h, prior);
 	rf_wavheader_init(h, rate, ch, (rf_wavheader_format_t)f);
+	/* prior kinds 0 and 2: the frame count is set twice (a first, different count, then the final one) */
+	uint32_t frames0 = frames0_of(prior, frames);
+	if (frames0 != 0xffffffffu)
+		rf_wavheader_set_num_frames(h, frames0);
 	rf_wavheader_set_num_frames(h, frames);
 	int val = rf_wavheader_validate(h);
 	memset(buf, 0xEE, 128);
@@ -87,7 +92,8 @@ static void init_case(int prior, int f, unsigned ch, uint32_t rate, uint32_t fra
 	}
 	printf("{\"e\":\"Init\",\"prior\":%d,\"f\":%d,\"ch\":%u,", prior, f, ch);
 	ju32("rate", rate); printf(",");
-	ju32("frames", frames); printf(",");
+	ju32("frames", frames); printf(",\"twice\":%d,", frames0 != 0xffffffffu);
+	ju32("frames0", frames0 == 0xffffffffu ? 0 : frames0); printf(",");
 	jhdr("h", h);
 	printf(",\"val\":%d,\"enclen\":%d,", val, el);
 	jbytes("enc", buf, el > 0 && el <= 128 ? el : 0);
@@ -181,7 +187,8 @@ static void put32(uint8_t *p, uint32_t v) { p[0] = v; p[1] = v >> 8; p[2] = v >>
 static void gen_decode(long seed, int nrandom)
 {
 	static const uint32_t sizes[] = { 0, 1, 15, 16, 17, 18, 19, 20, 40, 41, 0x7fffffffu, 0x80000000u, 0x80000011u, 0x80000012u,
-					  0xfffffff3u, 0xfffffff4u, 0xfffffffeu, 0xffffffffu, 0x10000, 0xffff };
+					  0xfffffff3u, 0xfffffff4u, 0xfffffffeu, 0xffffffffu, 0x10000, 0xffff, 0xffffffe4u, 0xffffffe5u, 0xfffffff0u,
+					  0xffffffd0u, 0xc0000000u };
 	static const unsigned cbs[] = { 0, 1, 21, 22, 23, 0xffff };
 	uint8_t buf[300], m[300];
 	drv_srand(seed);
@@ -193,6 +200,7 @@ static void gen_decode(long seed, int nrandom)
 		for (unsigned s = 0; s < sizeof(sizes) / sizeof(sizes[0]); s++) {   /* hostile size fields */
 			memcpy(m, buf, n); put32(m + 16, sizes[s]); decode_case(m, n); memset(m + n, 0, 20); decode_case(m, n + 20);
 			memcpy(m, buf, n); put32(m + 4, sizes[s]); decode_case(m, n);
+			memcpy(m, buf, n); put32(m + 16, sizes[s]); put32(m + 4, 0xffffffffu); decode_case(m, n); memset(m + n, 0, 20); decode_case(m, n + 20);
 			memcpy(m, buf, n); put32(m + n - 4, sizes[s]); decode_case(m, n);
 			if (kind == 2) { memcpy(m, buf, n); put32(m + 42, sizes[s]); decode_case(m, n); }
 			for (unsigned c = 0; c < 6; c++) {
